@@ -20,11 +20,14 @@ import (
 	"compress/zlib"
 	"errors"
 	"fmt"
+	"image"
+	"image/jpeg"
 	"io"
 	"runtime"
 	"runtime/debug"
 	"strings"
 	"sync"
+	"time"
 
 	"seehuhn.de/go/pdf"
 )
@@ -334,6 +337,161 @@ func poolReadScenario(fx *poolFixture, steps []string) string {
 	return fx.alternate(64, 100)
 }
 
+// ---- close order of a filter chain with a producer goroutine (Flate below DCT)
+
+// poolGateSource is the file of the Flate+DCT stream; when armed, the n-th ReadAt parks until it
+// is released (it is the DCT producer goroutine, reading through the pooled zlib reader).
+type poolGateSource struct {
+	data    []byte
+	armed   bool
+	count   int
+	after   int
+	parked  chan struct{}
+	release chan struct{}
+}
+
+func (g *poolGateSource) ReadAt(p []byte, off int64) (int, error) {
+	if g.armed {
+		g.count++
+		if g.count == g.after {
+			g.parked <- struct{}{}
+			<-g.release
+		}
+	}
+	if off >= int64(len(g.data)) {
+		return 0, io.EOF
+	}
+	n := copy(p, g.data[off:])
+	if n < len(p) {
+		return n, io.EOF
+	}
+	return n, nil
+}
+
+// poolJPEG returns a baseline JPEG of some size.
+func poolJPEG() ([]byte, error) {
+	img := image.NewRGBA(image.Rect(0, 0, 320, 320))
+	x := uint32(12345)
+	for i := range img.Pix {
+		x = x*1664525 + 1013904223
+		img.Pix[i] = byte(x >> 24)
+	}
+	var b bytes.Buffer
+	err := jpeg.Encode(&b, img, &jpeg.Options{Quality: 90})
+	return b.Bytes(), err
+}
+
+// poolCloseOrderScenario: a stream with /Filter [/FlateDecode /DCTDecode] is opened; its DCT
+// producer goroutine is held inside a source read (it is inside Read of the pooled zlib reader);
+// the stream is closed in another goroutine.  Close must not hand the zlib reader back to the pool
+// while the producer is still inside it: Close may not return, and two unrelated Flate streams
+// opened meanwhile and read alternately must decode to exactly their bytes after the producer has
+// been released.  Runs on one P with the pool drained, so a reader put back too early is the one
+// the next Flate decode gets.
+func poolCloseOrderScenario(fx *poolFixture) (key, problem string) {
+	defer func() {
+		if r := recover(); r != nil {
+			key, problem = "pool-object-shared", fmt.Sprintf("the close-order scenario panicked: %v", r)
+		}
+	}()
+	jp, err := poolJPEG()
+	if err != nil {
+		return "pool-fixture", err.Error()
+	}
+	buf := &bytes.Buffer{}
+	w, err := poolNewWriter(poolChains[0], 33, buf)
+	if err != nil {
+		return "pool-fixture", err.Error()
+	}
+	ref := w.Alloc()
+	stm, err := w.OpenStream(ref, pdf.Dict{"Filter": pdf.Array{pdf.Name("FlateDecode"), pdf.Name("DCTDecode")}})
+	if err != nil {
+		return "pool-fixture", err.Error()
+	}
+	stm.Write(poolZlib(jp))
+	if err := stm.Close(); err != nil {
+		return "pool-fixture", err.Error()
+	}
+	if err := w.Close(); err != nil {
+		return "pool-fixture", err.Error()
+	}
+	src := &poolGateSource{data: buf.Bytes(), after: 2, parked: make(chan struct{}), release: make(chan struct{})}
+	rd, err := pdf.NewReader(src, int64(len(src.data)), nil)
+	if err != nil {
+		return "pool-fixture", err.Error()
+	}
+	obj, err := rd.Get(ref, true)
+	so, ok := obj.(*pdf.Stream)
+	if err != nil || !ok {
+		return "pool-fixture", fmt.Sprint("no stream: ", err)
+	}
+	fx.poolDrain()
+	src.armed = true
+	rc, err := pdf.DecodeStream(rd, nil, so)
+	if err != nil {
+		return "pool-fixture", "DecodeStream: " + err.Error()
+	}
+	select {
+	case <-src.parked:
+	case <-time.After(3 * time.Second):
+		src.armed = false
+		return "pool-fixture", "the DCT producer never reached its second source read"
+	}
+	src.armed = false
+	closed := make(chan error, 1)
+	go func() { closed <- rc.Close() }()
+	for i := 0; i < 50; i++ {
+		runtime.Gosched()
+	}
+	time.Sleep(20 * time.Millisecond)
+	early := false
+	select {
+	case <-closed:
+		early = true
+	default:
+	}
+	// two unrelated (large) Flate streams, opened while the producer is still parked inside the
+	// zlib reader
+	bigB, e1 := poolMakeFile(poolChains[0], 51, 400000, nil)
+	bigC, e2 := poolMakeFile(poolChains[0], 52, 300000, nil)
+	if e1 != nil || e2 != nil {
+		close(src.release)
+		return "pool-fixture", fmt.Sprint(e1, e2)
+	}
+	rb, errB := bigB.open()
+	rcc, errC := bigC.open()
+	if errB != nil || errC != nil {
+		close(src.release)
+		return "pool-fixture", fmt.Sprint("cannot open B/C: ", errB, errC)
+	}
+	half := make([]byte, 1500)
+	nb, _ := io.ReadFull(rb, half)
+	gotB := append([]byte{}, half[:nb]...)
+	nc, _ := io.ReadFull(rcc, half)
+	gotC := append([]byte{}, half[:nc]...)
+	close(src.release)
+	if !early {
+		select {
+		case <-closed:
+		case <-time.After(5 * time.Second):
+			return "stream-close-hangs", "Close of the Flate+DCT stream did not return within 5 s after its producer was released"
+		}
+	}
+	restB, eB := io.ReadAll(rb)
+	restC, eC := io.ReadAll(rcc)
+	rb.Close()
+	rcc.Close()
+	gotB = append(gotB, restB...)
+	gotC = append(gotC, restC...)
+	if early {
+		return "stream-close-before-producer-stopped", "Close of a /Filter [/FlateDecode /DCTDecode] stream returned while the DCT producer goroutine was still inside a Read of the lower layers"
+	}
+	if eB != nil || eC != nil || !bytes.Equal(gotB, bigB.want) || !bytes.Equal(gotC, bigC.want) {
+		return "pool-object-shared", fmt.Sprintf("a /Filter [/FlateDecode /DCTDecode] stream was closed while its DCT producer was inside a source read; two unrelated Flate streams opened meanwhile decode wrongly afterwards (B: %d of %d bytes, err %v; C: %d of %d bytes, err %v): the pooled zlib reader was handed out while the producer was still using it (the layers must be closed outermost first)", len(gotB), len(bigB.want), eB, len(gotC), len(bigC.want), eC)
+	}
+	return "", ""
+}
+
 // ---- writing side
 
 var poolWPoisons = []string{"wnormal", "wdblclose", "wfail", "wabandon"}
@@ -534,6 +692,13 @@ func runConcPool(c *Ctx) {
 				c.Violate("pool", "pool-fixture", "cannot write the test files for chain "+ch.name+": "+err.Error(), "")
 				continue
 			}
+			if ci == 0 {
+				if key, p := poolCloseOrderScenario(fx); p != "" {
+					c.Violate("pool", key, p, "closeorder")
+				}
+				c.Case("pool close order Flate+DCT", true)
+				c.Stat("pool discipline: close-order scenario (Flate below DCT, producer held in a source read)")
+			}
 			for _, steps := range seqs {
 				key := "pool-object-shared"
 				for _, k := range steps {
@@ -594,6 +759,18 @@ func runConcPool(c *Ctx) {
 
 func replayConcPool(input string) (bool, string) {
 	f := strings.Fields(input)
+	if input == "closeorder" {
+		var key, p string
+		poolDeterministic(func() {
+			fx, err := poolNewFixture(poolChains[0], 10)
+			if err != nil {
+				key, p = "pool-fixture", err.Error()
+				return
+			}
+			key, p = poolCloseOrderScenario(fx)
+		})
+		return p == "", key + ": " + p
+	}
 	if len(f) != 3 {
 		return true, "the multi-goroutine variant is not replayable deterministically: re-run ./check C18 quick"
 	}
